@@ -77,6 +77,29 @@ var (
 	c06FenceAsync = regexp.MustCompile(`(^|[^A-Za-z_0-9])(async|await)([^A-Za-z_0-9]|$)`)
 )
 
+var (
+	c06NumRun   = regexp.MustCompile(`[0-9][0-9A-Za-z_.]*`)
+	c06NumValid = regexp.MustCompile(`^(0[xX][0-9a-fA-F]+|0[oO][0-7]+|0[bB][01]+|(([0-9]+\.[0-9]*|[0-9]+)([eE][0-9]+)?)[jJ]?)$`)
+)
+
+// c06GluedNumber: a run of digits and letters that starts like a number but is no number literal as a whole ("0or", "1if", "1_0",
+// "0x", "1e"): CPython's hand-written tokenizer and a maximal-munch reading of the lexical grammar differ on where the number
+// ends, and CPython versions differ among themselves
+func c06GluedNumber(src string) bool {
+	for _, loc := range c06NumRun.FindAllStringIndex(src, -1) {
+		if loc[0] > 0 {
+			p := src[loc[0]-1]
+			if p == '_' || p == '.' || (p >= 'A' && p <= 'Z') || (p >= 'a' && p <= 'z') {
+				continue // inside an identifier or after a dot
+			}
+		}
+		if !c06NumValid.MatchString(src[loc[0]:loc[1]]) {
+			return true
+		}
+	}
+	return false
+}
+
 // c06FuzzFence names the reason a text is outside the common 3.4 = 3.6 subset ("" = inside)
 func c06FuzzFence(src string) string {
 	for i := 0; i < len(src); i++ {
@@ -90,6 +113,8 @@ func c06FuzzFence(src string) string {
 		return "backslash-at-eof"
 	}
 	switch {
+	case c06GluedNumber(src):
+		return "number-glued-to-name"
 	case c06FenceUnderscoreNum.MatchString(src):
 		return "pep515"
 	case c06FenceFString.MatchString(src):
@@ -140,6 +165,10 @@ func FuzzC06(f *testing.F) {
 			return
 		}
 		mode := modes[int(m)%len(modes)]
+		if i := strings.LastIndexAny(src, "\n\r"); mode == py.EvalMode && i >= 0 && i+1 < len(src) && strings.TrimLeft(src[i+1:], " \t\f") == "" {
+			// eval mode, last line white space only and unterminated: CPython 3.6's tokenizer reports an unexpected EOF, 3.11 does not
+			return
+		}
 		if mode == py.SingleMode && !strings.HasSuffix(src, "\n") {
 			// gpython's single mode takes newline-terminated input (its only caller, repl.Run, appends the newline itself)
 			return
